@@ -85,7 +85,7 @@ func bv64(n int) *Term { return BV(64, uint64(n)) }
 
 // intercept returns a handler when fn is modelled rather than executed.
 func (m *Machine) intercept(fn *ssa.Function, args []Val, caller *frame, site ssa.Instruction) handler {
-	name := fn.String()
+	name := m.prog.fnName(fn)
 	if fn.Pkg != nil && fn.Pkg == m.prog.main && strings.HasPrefix(fn.Name(), "v") && fn.Blocks == nil {
 		return m.intrinsic(fn, args, caller)
 	}
@@ -94,6 +94,9 @@ func (m *Machine) intercept(fn *ssa.Function, args []Val, caller *frame, site ss
 		if fn.Pkg != m.prog.main && !m.prog.initAllow[fn.Pkg.Pkg.Path()] {
 			return func() Val { return nil }
 		}
+	}
+	if m.summary && fn.Name() == "randomUint32n" && fn.Pkg != nil && fn.Pkg.Pkg.Path() == "go.1password.io/spg" && fn.Signature.Recv() == nil {
+		return func() Val { return m.drawSummary(args[0].(*Term)) }
 	}
 	switch name {
 	case "crypto/rand.Read":
